@@ -48,6 +48,7 @@ def assemble(repo, layout_path):
     em.add(open(os.path.join(CONTRACTS, "prelude", "prelude.rs")).read().rstrip("\n"), kind="prelude")
     em.add("verus! {", kind="meta")
     table = dict(TYPE_TABLE)
+    seen_lemmas = set()
     for raw in open(layout_path).read().split("\n"):
         ln = raw.strip()
         if not ln or ln.startswith("#"):
@@ -58,7 +59,10 @@ def assemble(repo, layout_path):
             continue
         elif cmd == "include":
             em.add(open(os.path.join(CONTRACTS, rest)).read().rstrip("\n"), kind="spec", file=rest)
+        elif cmd == "lemmas" and rest in seen_lemmas:
+            continue
         elif cmd == "lemmas":
+            seen_lemmas.add(rest)
             sys.path.insert(0, os.path.join(VERIF, "lib"))
             import engine_l
             em.add(engine_l.verus_axioms(os.path.join(CONTRACTS, "lemmas", rest)), kind="lemma-import", file=rest)
